@@ -1,6 +1,7 @@
 import Slu.Proto
 import Slu.Model.Ilu
 import Slu.Drv.Kernels
+import Slu.Drv.IluEvents
 -- HANDLER ilu => Slu.Drv.Ilu.handle
 /-
 Driver for family `ilu` (C15): the property's clauses evaluated on the outputs of `[sdcz]gsisx`.
@@ -15,7 +16,9 @@ Driver for family `ilu` (C15): the property's clauses evaluated on the outputs o
     steps), padding rows of X untouched; X untouched when nrhs = 0;
   * dropping off (ILU_DropRule = NODROP, or DROP_BASIC with tolerance 0) and info = 0:
     |Pr*A_out*Pc - L*U| <= gamma(n+2) |L||U| and the documented system op(A) X = B is solved within
-    gamma(4n+5) (|L||U|)|X| + gamma(n+1)|B| — exact rationals.
+    gamma(4n+5) (|L||U|)|X| + gamma(n+1)|B| — exact rationals;
+  * every pivot step (hook H2 of ilu_?pivotL, `ie.*`): the Prop clauses and the bit mirror of
+    `Slu.Drv.IluEvents` (Prop first, then Corr).
 -/
 namespace Slu.Drv.Ilu
 open Slu Slu.Kernels Slu.Ilu Slu.Drv.Kernels
@@ -65,7 +68,8 @@ def handleG (o : Ops K) (c : Case) : Res := Id.run do
   let tags := [s!"ty={c.ty}", s!"stype={c.p "stype"}", s!"rule={rule}", s!"milu={c.p "milu"}", s!"rowperm={c.p "rowperm"}",
     s!"trans={c.p "trans"}", s!"vcls={c.p "vcls"}", s!"equed={c.p "equed"}", s!"norm={c.p "norm"}", s!"colperm={c.p "colperm"}",
     (if info == 0 then "info=0" else if info ≤ n then "info=replaced" else "info>n"),
-    (if nodrop then "nodrop" else "drop")]
+    (if nodrop then "nodrop" else "drop"), s!"dmode={c.p "dmode" "0"}", s!"u={c.p "u"}"] ++
+    (if c.p "refact" == "1" then [if c.p "refkind" == "0" then "refactor=same-values" else "refactor=new-values"] else []) ++ (if c.p "symm" == "1" then ["symmetric-mode"] else [])
   let call := s!"{c.ty}gsisx Stype={c.p "stype"} Trans={c.p "trans"} rule={rule} milu={c.p "milu"} rowperm={c.p "rowperm"}"
   let lib := c.str "libout"
   let tags := if lib ≠ "" then tags ++ ["library-printed"] else tags
@@ -156,7 +160,20 @@ def handleG (o : Ops K) (c : Case) : Res := Id.run do
   return Res.ok (n ≥ 2) (tags ++ [if nsn == n then "sn=single" else "sn=multi", if solved then "solved" else "nosolve"]) cls
 end generic
 
+/-- the driver-level clauses, then the pivot events: Prop clauses on the recorded outputs, then the bit
+mirror of `ilu_[sdcz]pivotL` -/
 def handle (c : Case) : Res :=
-  if c.isComplex then handleG opsC c else handleG opsR c
+  let r := if c.isComplex then handleG opsC c else handleG opsR c
+  if r.status == "prop-false" ∨ r.status == "skip" then r else
+  if (c.int? "ie.hdr").isNone then r else
+  let evs := IluEvents.decodeIluEvents c
+  if c.pNat "ie.overflow" ≠ 0 then Res.corr "ILU pivot-event log inconsistent (entry/exit records do not pair up)" r.tags else
+  match IluEvents.evProp c evs with
+  | some m => Res.propFalse m r.tags
+  | none =>
+    let (cm, tg) := IluEvents.evCorr c evs
+    match cm with
+    | some m => Res.corr m (r.tags ++ tg)
+    | none => if r.status == "ok" then { r with tags := r.tags ++ tg ++ [if evs.size > 0 then "ie=checked" else "ie=none"], cls := if r.cls == "robust" ∧ evs.size > 0 then "bit" else r.cls } else r
 
 end Slu.Drv.Ilu
